@@ -68,7 +68,7 @@ pub const P_ASSERT: Profile = Profile {
     declare_precision_pct: 40,
     huge_pct: 3,
     exclusive_price: false,
-    negative_price_pct: 0,
+    negative_price_pct: 4,
 };
 
 pub const P_INFER: Profile = Profile {
